@@ -542,6 +542,40 @@ static int split(char *line, char **argv, int max)
     return n;
 }
 
+/* ---- history commands executed on other threads, strictly one after the other ("t1 <cmd>", "t2 <cmd>", "t3 <cmd>"):
+ * the recorded history stays sequential, so the same trace specification applies; what changes is WHICH thread makes
+ * each call (C14 is stated over any sequence of calls; per-thread caches and thread-affine state show here) ---- */
+#include <pthread.h>
+static struct worker { pthread_t th; int started, has, done, argc, rc; char **argv; pthread_mutex_t mu; pthread_cond_t cv; } wk[4];
+int g_thr;
+static int hist_cmd(int argc, char **argv);
+static void *wk_main(void *a)
+{
+    struct worker *w = a;
+    pthread_mutex_lock(&w->mu);
+    for (;;) {
+        while (!w->has) pthread_cond_wait(&w->cv, &w->mu);
+        w->has = 0;
+        w->rc = hist_cmd(w->argc, w->argv);
+        w->done = 1;
+        pthread_cond_broadcast(&w->cv);
+    }
+    return NULL;
+}
+static int on_thread(int n, int argc, char **argv)
+{
+    struct worker *w = &wk[n]; int rc;
+    if (!w->started) { pthread_mutex_init(&w->mu, NULL); pthread_cond_init(&w->cv, NULL); w->started = 1; pthread_create(&w->th, NULL, wk_main, w); }
+    pthread_mutex_lock(&w->mu);
+    g_thr = n;
+    w->argc = argc; w->argv = argv; w->done = 0; w->has = 1;
+    pthread_cond_broadcast(&w->cv);
+    while (!w->done) pthread_cond_wait(&w->cv, &w->mu);
+    rc = w->rc; g_thr = 0;
+    pthread_mutex_unlock(&w->mu);
+    return rc;
+}
+
 static int run_script(const char *path)
 {
     FILE *f = fopen(path, "r"); char *line = NULL; size_t cap = 0; long idx = 0; char *argv[4096]; int argc;
@@ -564,6 +598,9 @@ static int run_script(const char *path)
         else if (!strcmp(argv[0], "one_dec")) one_case(1, argv);
         else if (!strcmp(argv[0], "one_rec")) one_case(0, argv);
         else if (!strcmp(argv[0], "one_need")) one_need(argv);
+        else if (argc > 1 && argv[0][0] == 't' && argv[0][1] >= '1' && argv[0][1] <= '3' && !argv[0][2]) {
+            if (!on_thread(argv[0][1] - '0', argc - 1, argv + 1)) { fprintf(stderr, "ecdrive: unknown command %s\n", argv[1]); return 2; }
+        }
         else if (wire_cmd(argc, argv)) ;
         else if (hist_cmd(argc, argv)) ;
         else { fprintf(stderr, "ecdrive: unknown command %s\n", argv[0]); return 2; }
